@@ -277,6 +277,23 @@ example : (trace ⟨fun _ => 1⟩ (St.init 1 9092) demo).map (·.2) =
   decide
 example : firedOf (trace ⟨fun _ => 1⟩ (St.init 1 9092) demo) = [0, 1, 2] := by decide
 
+/-! Re-entrant callbacks (open statements `C06_reentrant`, `C06_flat_model_is_reentrant_model_without_hooks`
+in `Open/C06.lean`): a concrete run of the re-entrant model — request 2 expects no reply and its callback
+closes the client while the queue is being written; the monitor `r06` accepts it, and without callbacks
+the two models agree on `demo`. -/
+example : ((Afkak.BrokerClientR.traceR ⟨fun _ => 1⟩ (Afkak.BrokerClientR.StR.init 1 9092)
+      [.make 1 true none, .make 2 false (some .close), .make 3 true none, .flat .connOk, .flat .lost]).map (·.2)) =
+    [[.ob (.connect 1 9092), .made 0 1], [.made 1 2], [.made 2 3],
+     [.ob (.write 0 0 1), .ob (.write 0 1 2), .ob (.fire 1 2 .none), .hookBegin 1, .closing, .ob (.lose 0),
+      .ob (.fire 2 3 (.err .clientError)), .ob (.fire 0 1 (.err .clientError)), .hookEnd],
+     [.ob .down]] := by decide +kernel
+example : r06 (Afkak.BrokerClientR.traceR ⟨fun _ => 1⟩ (Afkak.BrokerClientR.StR.init 1 9092)
+      [.make 1 true none, .make 2 false (some .close), .make 3 true none, .flat .connOk, .flat .lost]) = true := by
+  decide +kernel
+example : (Afkak.BrokerClientR.traceR ⟨fun _ => 1⟩ (Afkak.BrokerClientR.StR.init 1 9092) (demo.map .flat)).map
+      (fun t => Afkak.BrokerClientR.plain t.2) = (trace ⟨fun _ => 1⟩ (St.init 1 9092) demo).map (·.2) := by
+  decide +kernel
+
 /-! Non-vacuity (framing) -/
 example : ∃ a b c d : UInt8, 2 ^ 31 ≤ be32 a b c d := ⟨0x80, 0, 0, 0, by decide⟩
 example : feedAll [] [[0, 0], [0, 2, 7], [9, 0, 0, 0, 1], [5]] = ⟨[[7, 9], [5]], [], false⟩ := by decide
@@ -304,4 +321,6 @@ C06_bootstrap_no_crosstalk_partial
 -/
 /- OPEN_STATEMENTS
 C06_bootstrap_no_crosstalk
+C06_reentrant
+C06_flat_model_is_reentrant_model_without_hooks
 -/
